@@ -49,7 +49,8 @@ manifest = {
         {"name": "G", "path": "engines/graphs.py engines/refmodel.py universe/", "serves_properties": ["C01", "C02", "C03", "C12", "C13", "C14", "C15", "C17", "C20"], "kind_free_text": "bounded-exhaustive configuration graphs x construction histories x hash seeds, independent reference encoder"},
         {"name": "W", "path": "engines/vworld.py engines/vxpm.py engines/explore.py", "serves_properties": ["C04", "C05", "C06", "C07", "C08", "C09", "C11", "C16"], "kind_free_text": "stateless deviation-bounded model checker running the real scheduler on a virtual asyncio loop with greenlet actors, simulated processes / POSIX locks / inotify, kill injection"},
         {"name": "K", "path": "engines/crash.py engines/crash_shim.py", "serves_properties": ["C10"], "kind_free_text": "explicit-state BFS over real job processes killed at every traced line"},
-        {"name": "F", "path": "engines/wsfs.py", "serves_properties": ["C16", "C19", "C20"], "kind_free_text": "explicit-state BFS over workspace layouts with the real CLI as transitions"},
+        {"name": "T", "path": "engines/tworld.py engines/twork.py", "serves_properties": ["C01", "C03"], "kind_free_text": "preemption-bounded exhaustive exploration of real threads (sys.settrace baton scheduler, every plan with <= 1 preemption at traced call/line events)"},
+        {"name": "F", "path": "engines/c16.py engines/c19.py engines/c20.py", "serves_properties": ["C16", "C19", "C20"], "kind_free_text": "explicit-state BFS over workspace layouts with the real CLI as transitions"},
     ],
     "checks": checks,
     "not_applicable": [{"property_id": p, "reason": r} for p, r in sorted(NOT_APPLICABLE.items()) if p not in CHECKS],
